@@ -450,6 +450,26 @@ class Impl:
             if isinstance(res, Exception):
                 raise res
             return ("frames", [self.frame_of(x) for x in res])
+        if cmd == "arrayneg":
+            members = [self.get(m) for m in toks[1:]]
+            arr = sc.StairsArray(members)
+            res = -arr if o.get("form") == "dunder" else arr.negate()
+            return ("frames", [self.frame_of(x) for x in res])
+        if cmd == "slicehist":
+            # slicehist r binclosed stat b0 b1 ... / l:r ...
+            r, bcl, stat = toks[1:4]
+            rest = toks[4:]
+            i = rest.index("/")
+            breaks = [num(F(t)) for t in rest[:i]]
+            ivs = [tuple(F(x) for x in t.split(":")) for t in rest[i + 1:]]
+            f = self.get(r)
+            ii = pd.IntervalIndex.from_arrays([d.pt(iv[0]) for iv in ivs], [d.pt(iv[1]) for iv in ivs], closed="left")
+            df = f.slice(ii).hist(bins=breaks, closed=bcl, stat=stat)
+            outv = []
+            for row in df.values:
+                for v in row:
+                    outv.append(d.length(v) if isinstance(v, (pd.Timedelta, np.timedelta64)) else val(v))
+            return ("vals", outv)
         if cmd == "arraysample":
             kind = toks[1]
             rest = toks[3:]
@@ -468,7 +488,13 @@ class Impl:
             which, lo, hi = toks[1:4]
             members = [self.get(m) for m in toks[4:]]
             fn = sc.cov if which == "cov" else sc.corr
-            mat = np.asarray(fn(members, where=self.window(lo, hi)))
+            if o.get("via") == "accessor":
+                ser = pd.Series(members, dtype="Stairs")
+                mat = np.asarray(getattr(ser.sc, which)(where=self.window(lo, hi)))
+            elif o.get("via") == "sarray":
+                mat = np.asarray(getattr(sc.StairsArray(members), which)(where=self.window(lo, hi)))
+            else:
+                mat = np.asarray(fn(members, where=self.window(lo, hi)))
             n = len(members)
             for i in range(n):
                 for j in range(n):
@@ -521,7 +547,11 @@ class Impl:
             cc = ("left" if f.closed == "left" else "right") if c == "default" else c
             contiguous = all(ivs[i][1] == ivs[i + 1][0] for i in range(len(ivs) - 1))
             how = o.get("cuts", "breaks" if contiguous else "ii")
-            if how == "breaks" and contiguous:
+            if how == "period" and d.name == "dt" and contiguous:
+                # PeriodIndex of hourly periods (the implementation closes the 1 ns gap between periods)
+                pi = pd.period_range(start=d.pt(ivs[0][0]), periods=len(ivs), freq="h")
+                slicer = f.slice(pi, closed=cc)
+            elif how == "breaks" and contiguous:
                 breaks = [d.pt(ivs[0][0])] + [d.pt(iv[1]) for iv in ivs]
                 if o.get("cutsform") == "index":
                     breaks = pd.Index(breaks)
@@ -662,6 +692,15 @@ class Impl:
         elif form == "index":
             res = call(pts, include_index=True)
             return [val(v) for v in list(getattr(res, "values", res))]
+        elif form == "indexscalar":
+            out = []
+            for p in pts:
+                res = call(p, include_index=True)
+                vals_ = list(getattr(res, "values", [res]))
+                if len(vals_) != 1:
+                    raise ValueError("include_index with a scalar must give one value")
+                out.append(val(vals_[0]))
+            return out
         else:
             raise ValueError(form)
         return [val(v) for v in list(res)]
@@ -743,6 +782,15 @@ class Impl:
     def stat(self, f, name, lo, hi, c, o):
         d = self.dom
         nowin = lo == "none" and hi == "none"
+        if name == "minmax":
+            # the list form of agg with both extremes at once
+            kw = {}
+            if not nowin:
+                kw["where"] = self.window(lo, hi, o.get("win", "tuple"))
+            if c != "default":
+                kw["closed"] = c
+            res = f.agg(["min", "max"], **kw)
+            return ("vals", [val(res["min"]), val(res["max"])])
         via = o.get("via", "agg" if not nowin or c != "default" else "method")
         pyname = {"modes": "mode"}.get(name, name)
         if name == "std2":
